@@ -13,6 +13,7 @@ import (
 	"strings"
 	"time"
 
+	"golang.org/x/tools/go/callgraph"
 	"golang.org/x/tools/go/packages"
 	"golang.org/x/tools/go/ssa"
 	"golang.org/x/tools/go/ssa/ssautil"
@@ -49,6 +50,11 @@ const (
 // ssaBodyDeps: dependency packages whose function bodies are built (callee summaries).
 var ssaBodyDeps = map[string]bool{pkgIntstr: true}
 
+// fullSSABodies (thorough tier): build function bodies of every package so that the VTA call
+// graph can follow calls that leave the repository and come back (sort.Sort → Less, handler
+// registries, …).
+var fullSSABodies bool
+
 // expectedPkgs must all be present in the loaded program (anchor packages).
 var expectedPkgs = []string{
 	pkgAPI, pkgEDS, pkgEDSCond, pkgERS, pkgERSCond, pkgSched, pkgStrategy, pkgLimits,
@@ -66,6 +72,7 @@ type Prog struct {
 	nFuncs   int
 	nRepoFns int
 	tags     string
+	cg       *callgraph.Graph
 }
 
 func loadEnv() []string {
@@ -142,7 +149,7 @@ func Load(dir, tags string, extraEnv ...string) (*Prog, error) {
 	// Function bodies are built for the repository's packages and for the few dependency
 	// packages whose functions the rules summarise; other dependencies keep their signatures only.
 	for path, pk := range p.All {
-		if p.IsRepoPkg(path) || ssaBodyDeps[path] {
+		if fullSSABodies || p.IsRepoPkg(path) || ssaBodyDeps[path] {
 			if sp := prog.Package(pk.Types); sp != nil {
 				sp.Build()
 			}
